@@ -20,6 +20,7 @@
 #pragma once
 #include <vrt.hpp>
 
+#include <cerrno>
 #include <unordered_set>
 
 namespace vrt
@@ -330,8 +331,14 @@ template <class Sys> struct explorer
       {
         int status = 0;
         pid_t p = waitpid(-1, &status, 0);
+        if (p < 0 && errno == EINTR)
+          continue; // the watchdog timer of this process interrupts the wait once per second
         if (p <= 0)
+        {
+          vrt::fail("harness:waitpid", "waitpid failed while workers were running");
+          level_complete = false;
           break;
+        }
         for (int w = 0; w < W; ++w)
         {
           wslot &sl = ws[static_cast<std::size_t>(w)];
@@ -406,6 +413,9 @@ template <class Sys> struct explorer
       std::sort(recs.begin(), recs.end(), [](rec const &x, rec const &y) {
         return x.parent != y.parent ? x.parent < y.parent : x.opi < y.opi;
       });
+      if (std::getenv("VRT_DEBUG"))
+        std::fprintf(stderr, "[hist %s] depth %d: expanded [%u,%u) recs=%zu evals=%llu complete=%d\n", name.c_str(), depth, lo, hi,
+                     recs.size(), static_cast<unsigned long long>(evals), level_complete ? 1 : 0);
       std::uint32_t const new_lo = static_cast<std::uint32_t>(nodes.size());
       for (rec const &r : recs)
       {
